@@ -7,3 +7,4 @@ CONSTANTS
 INVARIANT BlastAgrees
 INVARIANT BlastPrefix
 INVARIANT Framed
+INVARIANT Witnessed
